@@ -86,6 +86,24 @@ def run_tlc(module: str, cfg: str | None = None, workers: int | str = 16, extra:
     return TLCResult(rc, out, time.time() - t0)
 
 
+def run_apalache(module: str, args: list[str], timeout: int = 600):
+    """apalache-mc check <args> spec/<module>.tla in a temp out-dir; -> (ok, violated, text).  ok = 'NoError';
+    violated = the checker found a counterexample; neither = machinery failure (text explains)."""
+    out_dir = tempfile.mkdtemp(prefix="apa_")
+    try:
+        p = subprocess.run(["apalache-mc", "check", *args, f"--out-dir={out_dir}", f"--run-dir={out_dir}/run", str(SPEC / f"{module}.tla")], cwd=out_dir, capture_output=True, text=True, timeout=timeout)
+        text = p.stdout + p.stderr
+    except subprocess.TimeoutExpired:
+        return False, False, "TIMEOUT"
+    except FileNotFoundError:
+        return False, False, "apalache-mc not on PATH"
+    finally:
+        shutil.rmtree(out_dir, ignore_errors=True)
+    ok = p.returncode == 0 and "The outcome is: NoError" in text
+    violated = "The outcome is: Error" in text and "invariant" in text and "violated" in text
+    return ok, violated, text[-3000:]
+
+
 def tla_value_to_py(s: str):
     """Parse a TLA+ value as printed by TLC (records, sequences, sets, ints,
     strings, booleans, functions (a :> b @@ c :> d)) into Python."""
